@@ -6,10 +6,10 @@ from vlib import c01lib, common
 GO = dict(module="core", pkg=c01lib.PKG, pkgname=c01lib.PKGNAME,
           files=dict(c01lib.ENV_FILES, **{"zz_verif_c01_test.go": "c01/c01_test.go"}), run="TestVerifC01")
 PARAMS_NAME = c01lib.PARAMS_NAME
-HEADER = c01lib.HEADER
-CORR_NAME = "C01_Corr"
+HEADER = c01lib.HEADER + "From Hy Require Import corr.C01K_Corr.\n"   # check = C01_Corr.check && the product check
+CORR_NAME = "C01K_Corr"
 PER_SHARD = 6
-EXTRA_TARGETS = ["corr/C01_Corr.vo"]
+EXTRA_TARGETS = ["corr/C01_Corr.vo", "corr/C01K_Corr.vo"]
 RULE = ("seeded generator of histories on 1-3 raw QUIC connections to one real server.NewServer (loopback): auth requests with "
         "accepted / rejected credentials (CC-RX values incl. overflow and syntax errors), near-miss HTTP/3 requests, raw bidirectional "
         "streams opening with 0x401 + TCPRequest (and other / unreadable frame types), UDPMessage datagrams, repeated auth, close; "
@@ -34,8 +34,11 @@ ASSUMPTIONS = [
     "a datagram sent on an unauthenticated connection has no awaitable outcome: absence of an outbound call is observed up to the end of the history plus 25 ms",
 ]
 TRUSTED = ["modelled rather than verified: core/server/server.go ServeHTTP / ProxyStreamHijacker / handleClient and protocol/http.go "
-           "(hand transcription in coq/model/C01_ServerAuth.v); the TCP request handler and the UDP session manager are abstracted to "
-           "'may reach the outbound / relay for their own connection once they exist'"]
+           "(hand transcription in coq/model/C01_ServerAuth.v); in the abstract LTS the TCP request handler and the UDP session manager are "
+           "'may reach the outbound / relay for their own connection once they exist'; coq/model/C01_Compose.v replaces them by the concrete "
+           "C06 handler LTS and C07 session-manager LTS (per-connection product), proved to refine the abstract LTS and to take no component "
+           "action before authentication; the glue of the product (a handler is spawned exactly by an accepted 0x401 stream, the manager by the "
+           "accepting ServeHTTP, ReceiveMessage takes queued datagrams) is hand-written and tied by replaying every recorded log through the product"]
 
 CCRX = ["", "0", "100000", "65536", "99999999999999999999999", "+5", "12a", "18446744073709551615", "18446744073709551616",
         "1844674407370955162", "007"]
@@ -349,9 +352,12 @@ LEVEL_TEXT = ("Machine-checked Coq theorems over a labelled-transition-system mo
               "connection; a step on one connection leaves every other connection's state unchanged; once authenticated nothing clears "
               "the flag and the authenticator is not consulted again; online/offline events are paired. Tied to /repo on every run by "
               "regenerated constants and by replaying boundary logs of a real server (real QUIC/HTTP3 clients, recording fakes) through "
-              "the model inside Coq (vm_compute).")
+              "the model inside Coq (vm_compute). The abstraction of the TCP handler / UDP session manager is discharged by composition: the product of the "
+              "C01 control LTS with the C06 handler LTS (per accepted stream) and the C07 session-manager LTS is proved to refine the abstract LTS and to "
+              "allow no component action on a connection before an accepting verdict on it; every recorded log is also replayed through the product.")
 LEVEL_NOTE = ("Trusted: Coq kernel + vm_compute; hand-written model (tie = sampled end-to-end boundary logs + regenerated Params); python/Go glue. "
               "No axioms. Not proved: quic-go/http3 dispatching per connection; the unlocked read of h.authenticated in the dispatcher; "
-              "inner behaviour of the TCP handler / UDP session manager (C06-C08).")
+              "inner behaviour of the TCP handler / UDP session manager is C06 / C07's (their LTSs are embedded unchanged in the product; C08's policy / hook is the "
+              "environment choice ADrop / AHookErr of C07).")
 TECHNIQUE = "Coq proof (invariants over an LTS of atomic sections) on a hand-written model + end-to-end boundary-log replay in vm_compute"
 DESIGN_REF = "DESIGN.md section 4 C01"
